@@ -108,12 +108,25 @@ type LayoutAtom struct {
 	Args []string // raw args
 }
 
+type LayoutPath struct {
+	Key   string
+	Segs  []*Expr
+	Posts []*Expr
+}
+
+type DynSpec struct {
+	Field, Key, Table string
+}
+
 type Layout struct {
-	Type  string
-	Proto string
-	Order string
-	Frame bool
-	Atoms []LayoutAtom
+	Dyns      []DynSpec
+	Type      string
+	Proto     string
+	Order     string
+	Frame     bool
+	FrameInfo map[string]string
+	Atoms     []LayoutAtom
+	Paths     []*LayoutPath
 }
 
 type Table struct {
@@ -536,7 +549,7 @@ func ParseContractFile(path string) (cf *ContractFile, err error) {
 			reset()
 			// layout Type [proto x, BE, frame]
 			i := strings.IndexByte(rest, '[')
-			ly = &Layout{Type: strings.TrimSpace(rest[:i])}
+			ly = &Layout{Type: strings.TrimSpace(rest[:i]), FrameInfo: map[string]string{}}
 			for _, f := range strings.Split(strings.Trim(rest[i:], "[]"), ",") {
 				f = strings.TrimSpace(f)
 				switch {
@@ -544,8 +557,13 @@ func ParseContractFile(path string) (cf *ContractFile, err error) {
 					ly.Proto = strings.TrimSpace(f[6:])
 				case f == "BE" || f == "LE":
 					ly.Order = f
-				case f == "frame":
+				case f == "frame" || strings.HasPrefix(f, "frame "):
 					ly.Frame = true
+					for _, kv := range strings.Fields(strings.TrimPrefix(f, "frame")) {
+						if j := strings.IndexByte(kv, '='); j > 0 {
+							ly.FrameInfo[kv[:j]] = kv[j+1:]
+						}
+					}
 				}
 			}
 			cf.Layouts[ly.Type] = ly
@@ -559,8 +577,29 @@ func ParseContractFile(path string) (cf *ContractFile, err error) {
 		}
 		switch {
 		case ly != nil:
-			for _, a := range splitAtoms(t) {
-				ly.Atoms = append(ly.Atoms, a)
+			switch word {
+			case "dyn":
+				f := strings.Fields(rest) // dyn Field by Key in table
+				if len(f) != 5 {
+					panic(where + ": dyn <Field> by <Key> in <table>")
+				}
+				ly.Dyns = append(ly.Dyns, DynSpec{Field: f[0], Key: f[2], Table: f[4]})
+			case "path":
+				ly.Paths = append(ly.Paths, &LayoutPath{Key: rest})
+			case "seg":
+				if len(ly.Paths) == 0 {
+					panic(where + ": seg outside path")
+				}
+				lp := ly.Paths[len(ly.Paths)-1]
+				lp.Segs = append(lp.Segs, mustExpr(rest, where))
+			case "post":
+				if len(ly.Paths) == 0 {
+					panic(where + ": post outside path")
+				}
+				lp := ly.Paths[len(ly.Paths)-1]
+				lp.Posts = append(lp.Posts, mustExpr(rest, where))
+			default:
+				panic(where + ": unknown layout clause " + word)
 			}
 		case tb != nil:
 			for _, ent := range strings.Fields(t) {
